@@ -34,7 +34,7 @@ def examples(tier):
 
 
 def case_cost(case):
-    return {"pairs07": 3, "pairs12": 2, "hw": 2, "fault": 4, "inst2": 2}.get(case["family"], 1)
+    return {"pairs07": 3, "pairs12": 2, "hw": 2, "fault": 4, "inst2": 2, "wake-chain": 2}.get(case["family"], 1)
 
 
 # ---- 'two holders + two waiters' programs --------------------------------------------------------
@@ -56,12 +56,32 @@ HW = {
 BASE = {"cfg": {"algo": "SHA-256", "depth": 2, "width": 2}, "contents": [{"hex": "5858585858"}, {"hex": "5959"}],
         "docs": [{"hex": "6430"}, {"hex": "6431"}]}
 
+# 'wake chain': H holds identifier B (parked inside its critical section); W1 is a call that needs SEVERAL identifiers (it may take
+# A and then wait for B while holding A); W2 wants A and queues up; P releases an UNRELATED identifier of the same kind (its
+# notification goes to the head of the queue); W1 re-checks and waits again; then H finishes.  A single notify() that reaches the
+# wrong waiter is harmless as long as nobody waits WHILE HOLDING something another waiter needs - this family builds that shape.
+_TWO_DOCS = [{"op": "smeta", "pid": "p", "fmt": "f", "d": 0}, {"op": "smeta", "pid": "p", "fmt": "fmt:1", "d": 0}]
+WAKE_CHAIN = {
+    "docs-f-first": (_TWO_DOCS, {"op": "smeta", "pid": "p", "fmt": "f", "d": 1}, {"op": "dmeta", "pid": "p", "fmt": None},
+                     {"op": "smeta", "pid": "p", "fmt": "fmt:1", "d": 1}, {"op": "smeta", "pid": "q", "fmt": "f", "d": 1}),
+    "docs-f-last": (_TWO_DOCS, {"op": "smeta", "pid": "p", "fmt": "fmt:1", "d": 1}, {"op": "dmeta", "pid": "p", "fmt": None},
+                    {"op": "smeta", "pid": "p", "fmt": "f", "d": 1}, {"op": "smeta", "pid": "q", "fmt": "f", "d": 1}),
+    "docs-delete-object-f-first": ([{"op": "store", "pid": "p", "c": 0}] + _TWO_DOCS, {"op": "smeta", "pid": "p", "fmt": "f", "d": 1},
+                                   {"op": "delete", "pid": "p"}, {"op": "smeta", "pid": "p", "fmt": "fmt:1", "d": 1},
+                                   {"op": "smeta", "pid": "q", "fmt": "f", "d": 1}),
+    "docs-delete-object-f-last": ([{"op": "store", "pid": "p", "c": 0}] + _TWO_DOCS, {"op": "smeta", "pid": "p", "fmt": "fmt:1", "d": 1},
+                                  {"op": "delete", "pid": "p"}, {"op": "smeta", "pid": "p", "fmt": "f", "d": 1},
+                                  {"op": "smeta", "pid": "q", "fmt": "f", "d": 1}),
+    "cid-behind-pid": ([{"op": "store", "pid": "q", "c": 0}, {"op": "store", "pid": None, "c": 1}], {"op": "tag", "pid": "p", "cid": {"of": 0}},
+                       {"op": "delete", "pid": "q"}, {"op": "delete", "pid": "q"}, {"op": "tag", "pid": "r", "cid": {"of": 1}}),
+}
+
 
 def enumerate_cases(tier):
     seen = set()
     for case in c07.enumerate_cases("quick"):
-        if case["mode"] == "triple":
-            continue                      # (3-thread shapes are covered by this check's own families)
+        if case["mode"] != "enum" and case.get("family") != "holder-waiter-passer-by":
+            continue                      # (3-thread shapes and deeper enumerations are covered by this check's own families / by C07)
         key = (case["start_name"], str(case["calls"]))
         if key in seen:
             continue                      # the 2-preemption slices of C07 repeat the same program
@@ -82,6 +102,9 @@ def enumerate_cases(tier):
                 for waiters_first in ("B", "A"):
                     yield dict(BASE, family="hw", hw=fam, start_name=fam, start=start, hold=[a, b],
                                waiters_first=waiters_first)
+    for fam in WAKE_CHAIN:
+        for a in (range(2, 20, 2) if tier == "quick" else range(1, 40)):
+            yield dict(BASE, family="wake-chain", chain=fam, start_name=fam, start=WAKE_CHAIN[fam][0], hold=a)
     for kind in scen.TARGETS:
         for algo in (("SHA-256",) if tier == "quick" else ("SHA-256", "MD5")):
             yield {"family": "fault", "cfg": {"algo": algo, "depth": 2, "width": 2},
@@ -234,6 +257,24 @@ def run_case(case, ctx):
         ctx.classify(f"{fam}-programs")
         ctx.classify(f"{fam}-schedules", n)
         return
+    if fam == "wake-chain":
+        start, h, w1, w2, pby = WAKE_CHAIN[case["chain"]]
+        calls = [h, w1, w2, pby]
+        ub = sched.UNTIL_BLOCKED
+        for variant, pre in (("passer-by", [(case["hold"], 0), (ub, 0), (0, 0), (ub, 0), (0, 0), (ub, 0), (0, 0), (ub, 0)]),
+                             ("no-passer-by", [(case["hold"], 0), (ub, 0), (0, 0), (ub, 0)])):
+            ex = conc.run_program(world, calls, [0, 1, 2, 3], pre, keep_dir=True)
+            ctx.count()
+            desc = (f"[wake chain {case['chain']}/{variant}] program={_prog(world, calls)}: thread0 is parked after {case['hold']} steps, thread1 and "
+                    f"thread2 run until they block, thread3 runs to completion, thread1 gets to re-check, then thread0 finishes")
+            judge(ctx, world, desc, calls, ex, {"family": "wake-chain", "chain": case["chain"]})
+            ctx.classify("wake-chain-" + case["chain"])
+            if sum(ex.waited) >= 2:
+                ctx.classify("two-threads-waited")
+                ctx.nontrivial(["wake-chain", case["chain"], case["hold"], variant])
+                ctx.sample({"family": "wake chain", "chain": case["chain"], "program": _prog(world, calls), "hold_steps": case["hold"],
+                            "waited": ex.waited})
+        return
     if fam == "hw":
         start, ha, hb, wa, wb = HW[case["hw"]]
         a, b = case["hold"]
@@ -284,6 +325,8 @@ def _fault_case(case, ctx):
         """The faulted call runs as the only thread of an owned schedule, so that blocking is detected."""
         s = sched.Sched(d)
         s.ctx.on_op = inj
+        if inj.sticky == "late":
+            s.ctx.after_path_op = inj.after
         s.add(lambda: sc.call_target(store))
         try:
             return s.run(sched.preemption_chooser([0], []))[0]
@@ -292,12 +335,13 @@ def _fault_case(case, ctx):
 
     import itertools
     runs = itertools.chain(fault.faulted_runs(sc, store_factory=factory, runner=scheduled),
-                           fault.faulted_runs(sc, modes=("full",), errnos=("ENOSPC",), store_factory=factory, runner=scheduled))
+                           fault.faulted_runs(sc, modes=("full",), errnos=("ENOSPC",), store_factory=factory, runner=scheduled),
+                           fault.faulted_runs(sc, modes=("late",), errnos=("EIO",), store_factory=factory, runner=scheduled))
     for inj, store, d, out in runs:
         ctx.count()
         n += 1
         desc = f"[fault] {case['kind']} with {inj.describe()} -> {'ok' if is_ok(out) else out[1]}"
-        sig = {"family": "fault", "call": case["kind"], "mode": "disk-full" if inj.sticky == "full" else "sticky" if inj.sticky else "one-off",
+        sig = {"family": "fault", "call": case["kind"], "mode": "disk-full" if inj.sticky == "full" else "late" if inj.sticky == "late" else "sticky" if inj.sticky else "one-off",
                "site": inj.fired.kind}
         if not is_ok(out) and out[1] == "BLOCKED-FOREVER":
             ctx.violation("faulted-call-never-returns", f"{desc}: the call blocks forever: {out[2]}", dict(sig, failure="deadlock"))
